@@ -910,6 +910,9 @@ def check_case(case, ctx):
                 nested = True
     by_ident = dict((b['ident'], b) for b in blocks)
 
+    skipped_types = set(_gir_name_of_type(e['ctype']) for b, e in zip(blocks, elems)
+                        if e is not None and e['form'] == 'type' and _has(b, 'skip'))
+
     def vfunc_has_own_block(cls, slot):
         return ('%s::%s' % (W['classes'][cls]['struct'], slot)) in by_ident
 
@@ -958,6 +961,11 @@ def check_case(case, ctx):
             elif a == 'foreign':
                 checks.append((a, _attr_is('foreign', '1')))
             elif a in PROP_ATTRS:
+                tn = primary[0].el.find(GI + 'type')
+                if a != 'default-value' and tn is not None and tn.get('name') in skipped_types:
+                    # a property whose type is skipped is not introspectable and loses its accessors (C05 territory)
+                    ctx.label('undecided:accessor-of-property-with-skipped-type')
+                    continue
                 checks.append((a, _attr_is(PROP_ATTRS[a], v)))
             elif a == 'transfer':
                 checks.append((a, _attr_is('transfer-ownership', 'none' if v == 'floating' else v)))
@@ -1136,11 +1144,15 @@ def check_case(case, ctx):
             ds = diff(A, index(res_s.gir))
             for a in bad:
                 ctx.label('inapplicable:' + a)
+            if ds and e['kind'] == 'function' and set(bad) & set(['set-property', 'get-property']):
+                # known finding: exactly the glib:set/get-property attribute on the function the block documents
+                mine = p_cid(e['id'])
+                acc = [x for x in ds if x[3] is not None and x[3] <= set(['glib:set-property', 'glib:get-property']) and not x[4]
+                       and mine(x[1])]
+                if acc and ctx.known('accessor-annotation-on-non-method'):
+                    ds = [x for x in ds if x not in acc]
             if ds:
-                key = None
-                if set(bad) <= set(['set-property', 'get-property']) and e['kind'] == 'function':
-                    key = 'accessor-annotation-on-non-method'
-                if not (key and ctx.known(key)):
+                if True:
                     raise Violation('inapplicable-annotation-has-effect:' + '+'.join(sorted(bad)),
                                     '%s on %s [%s] is outside the documented "applies to" yet changes %s\n%s'
                                     % (bad, b['ident'], e['kind'], _describe(ds), render(b)))
@@ -1199,6 +1211,8 @@ def _rules(b, e, W, blocks, by_ident, component, A, Bi):
                 return bool(deep_refs(idx, x) & names)
             return False
         rules.append((refs_pred, None, None))
+        # a property of that type stops being introspectable: its accessor methods lose glib:set/get-property
+        rules.append((lambda x: x.tag == 'method' and len(x.chain) == 2, set(['glib:set-property', 'glib:get-property']), set()))
     if k == 'function':
         if _has(b, 'rename-to'):
             for s in component(b['ident']):
